@@ -3,6 +3,7 @@ package core
 import (
 	"errors"
 	"fmt"
+	"strings"
 	"sync/atomic"
 	"time"
 )
@@ -10,6 +11,11 @@ import (
 // ErrWatchdog is returned when logical quiescence was not reached within the (generous) wall-clock watchdog.
 // It never is a verdict: the case is inconclusive unless the offline oracles find a violation in the partial log.
 var ErrWatchdog = errors.New("watchdog: no logical quiescence")
+
+// ErrCancelNotDelivered is returned when a stop that was initiated for a job (hook H2: the cancel goroutine was about to be
+// spawned, inside the acknowledged cancel call) has not reached the job's runner 5 s later. The goroutine is started right after the hook, so this is not a matter of scheduling latency: the
+// acknowledged cancel was dropped. (A bounded restatement of "an acknowledged cancel takes effect".)
+var ErrCancelNotDelivered = errors.New("an initiated stop never reached the runner of its job")
 
 // QuiesceOpts tunes what Quiesce waits for
 type QuiesceOpts struct {
@@ -38,6 +44,7 @@ func (s *Sys) Quiesce(o QuiesceOpts) (View, error) {
 	}
 	marks := map[string]mark{}
 	spin := 0
+	var undeliveredSince time.Time
 	for {
 		ok, v, why := s.quiescentOnce(o, func(job string, cnt, lastChange int64) (bool, string) {
 			// two full loop passes after the stable observation. cnt / lastChange were read BEFORE the snapshot that is
@@ -72,6 +79,16 @@ func (s *Sys) Quiesce(o QuiesceOpts) (View, error) {
 			}
 			confirmFailed.Add(1)
 			why = fmt.Sprintf("observation not confirmed (second evaluation quiescent=%v, events %d -> %d, same view=%v)", ok2, n1, s.Log.Len(), sameView(v, v2))
+		}
+		if strings.HasPrefix(why, "cancel goroutine not yet delivered") {
+			if undeliveredSince.IsZero() {
+				undeliveredSince = time.Now()
+			}
+			if time.Since(undeliveredSince) > 5*time.Second && time.Since(undeliveredSince) < o.Watchdog {
+				return v, fmt.Errorf("%w: %s", ErrCancelNotDelivered, why)
+			}
+		} else {
+			undeliveredSince = time.Time{}
 		}
 		if time.Now().After(deadline) {
 			extra := ""
